@@ -461,7 +461,7 @@ int expr_div_constred(expr * value, int * result)
 
         value->type = EXPR_INT;
         value->comb.comb = COMB_TYPE_INT;
-        value->int_value = left_value->int_value / right_value->int_value;
+        value->int_value = (right_value->int_value == -1) ? -left_value->int_value : left_value->int_value / right_value->int_value;
 
         expr_delete(left_value);
         expr_delete(right_value);
@@ -480,7 +480,7 @@ int expr_div_constred(expr * value, int * result)
 
         value->type = EXPR_LONG;
         value->comb.comb = COMB_TYPE_LONG;
-        value->long_value = left_value->long_value / right_value->long_value;
+        value->long_value = (right_value->long_value == -1) ? -left_value->long_value : left_value->long_value / right_value->long_value;
 
         expr_delete(left_value);
         expr_delete(right_value);
@@ -608,7 +608,7 @@ int expr_mod_constred(expr * value, int * result)
 
         value->type = EXPR_INT;
         value->comb.comb = COMB_TYPE_INT;
-        value->int_value = left_value->int_value % right_value->int_value;
+        value->int_value = (right_value->int_value == -1) ? 0 : left_value->int_value % right_value->int_value;
 
         expr_delete(left_value);
         expr_delete(right_value);
@@ -687,7 +687,7 @@ int expr_mod_constred(expr * value, int * result)
 
         value->type = EXPR_LONG;
         value->comb.comb = COMB_TYPE_LONG;
-        value->long_value = left_value->long_value % right_value->long_value;
+        value->long_value = (right_value->long_value == -1) ? 0 : left_value->long_value % right_value->long_value;
 
         expr_delete(left_value);
         expr_delete(right_value);
